@@ -135,22 +135,23 @@ pub fn append_rule(rule: Arc<Rule>) -> bool {
         }
     }
     let mut placeholder = Vec::new();
-    let new_tcs_of_res = build_resource_traffic_shaping_controller(
-        &rule.resource,
-        RULE_MAP.lock().unwrap().get(&rule.resource).unwrap(),
-        CONTROLLER_MAP
-            .lock()
-            .unwrap()
-            .get_mut(&rule.resource)
-            .unwrap_or(&mut placeholder),
-    );
-    if !new_tcs_of_res.is_empty() {
-        CONTROLLER_MAP
-            .lock()
-            .unwrap()
-            .entry(rule.resource.clone())
-            .or_default()
-            .push(Arc::clone(&new_tcs_of_res[0]));
+    let rule_map = RULE_MAP.lock().unwrap();
+    let mut controller_map = CONTROLLER_MAP.lock().unwrap();
+    if let Some(rules_of_res) = rule_map.get(&rule.resource) {
+        // `build_resource_*` moves the reused items out of the old list,
+        // so the returned list has to replace the old one as a whole
+        let new_tcs_of_res = build_resource_traffic_shaping_controller(
+            &rule.resource,
+            rules_of_res,
+            controller_map
+                .get_mut(&rule.resource)
+                .unwrap_or(&mut placeholder),
+        );
+        if new_tcs_of_res.is_empty() {
+            controller_map.remove(&rule.resource);
+        } else {
+            controller_map.insert(rule.resource.clone(), new_tcs_of_res);
+        }
     }
     true
 }
